@@ -866,7 +866,18 @@ func (chain *Chain) abandonCosiSnapshot(s *common.Snapshot) {
 // transaction immediately eligible for another owner/proposal.
 func (chain *Chain) retryCosiSnapshot(s *common.Snapshot) {
 	chain.abandonCosiSnapshot(s)
-	chain.node.requeueTransactions(s.Transactions)
+	retry := make([]crypto.Hash, 0, len(s.Transactions))
+	for _, tx := range s.Transactions {
+		// A newer local proposal may have announced this transaction again
+		// after the duplicate guard of this one ran out. That proposal owns
+		// the transaction now, and will requeue it when itself is retired.
+		ov := chain.CosiVerifiers[tx]
+		if ov != nil && ov.Snapshot.Hash != s.Hash && chain.CosiAggregators[ov.Snapshot.Hash] != nil {
+			continue
+		}
+		retry = append(retry, tx)
+	}
+	chain.node.requeueTransactions(retry)
 }
 
 // resetCosiStateForNewRound retires old-round proposals that cannot complete
